@@ -208,6 +208,20 @@ def gen_cases(rng, tier):
             if rank >= 2:
                 ham['entries'] = pair_symmetrise(ham['entries'])
         cases.append({'kind': 'apply', 'norb': norb, 'mode': 'ns', 'n': na + nb, 'sz': na - nb, 'vec': vec, 'ham': ham, 'big': True})
+    # low filling with two electrons of one spin (needs >= 7 orbitals: n_sigma < 0.3 norb): the same-spin blocks of the
+    # low-filling kernels (reference path); complex Hermitian and non-Hermitian tensors, sparse states
+    for _ in range(6 if tier == 'quick' else 24):
+        norb = rng.choice([7, 7, 8])
+        na, nb = rng.choice([(2, 0), (0, 2), (2, 1), (1, 2), (2, 2)])
+        keys = fqeio.sector_keys(norb, 'ns', na + nb, na - nb)
+        basis = fqeio.basis_of(norb, keys)
+        vec = [[a, b, rng.randint(-2, 2) or 1, rng.randint(-2, 2)] for a, b in rng.sample(basis, min(len(basis), 12))]
+        cls = rng.choice(['restricted', 'sso'])
+        ham = gen_ham(rng, cls, 2, norb, 'sparse', False, rng.random() < 0.5)
+        ham['entries'] = ham['entries'][:10]
+        if cls == 'sso':
+            ham['entries'] = pair_symmetrise(_sso_filter(ham['entries'], norb))
+        cases.append({'kind': 'apply', 'norb': norb, 'mode': 'ns', 'n': na + nb, 'sz': na - nb, 'vec': vec, 'ham': ham, 'big': True})
     # number-broken wavefunctions: Hermitian FermionOperators with pairing terms
     for _ in range(25 if tier == 'quick' else 100):
         norb = rng.randint(1, 3)
